@@ -1577,7 +1577,9 @@ func (c *Compiler) compileEmptyMatch() (start, end StateID, err error) {
 func (c *Compiler) compileNoMatch() (start, end StateID, err error) {
 	// Create start and end states that are not connected
 	// The start state has no transitions, so the NFA can never progress
-	start = c.builder.AddEpsilon(InvalidState)
+	// The start must be a real dead state: an epsilon state whose target is InvalidState
+	// is followed by epsilon-closure code (one-pass builder) and indexes out of range.
+	start = c.builder.AddFail()
 	end = c.builder.AddEpsilon(InvalidState)
 	// Don't connect start to end - this makes it impossible to match
 	return start, end, nil
